@@ -121,12 +121,17 @@ structure Fn where
   ret : Expr
 deriving Repr, Inhabited
 
-/-- The rewritten function: `While { loop_variables, statements, break_collector }` as only
-statement (l.176-197) and renamed parameters. -/
+/-- The rewritten function (l.176-215): `While { loop_variables, statements, break_collector }` as
+only statement, parameters renamed to `_tailrec_param_<p>`. Kept in the pieces the code builds it
+from: `body` = the rewritten statements, `args` = the loop values found by `tryRw`, `snapshot` =
+`reads_other_parameter` (fix c57720b: the loop values are first copied by `Cast`s into the fresh
+temporaries `mkTemps nextTemp …`, appended to the body, and the loop variables read those). -/
 structure LoopFn where
-  params : List Name                 -- `_tailrec_param_<p>`
-  vars : List (Name × Expr × Expr)   -- (name, initial_value, loop_value)
+  params : List Name
   body : Blk
+  args : List Expr
+  snapshot : Bool
+  nextTemp : Nat
   breakCollector : Option Name
   ret : Expr
 deriving Repr, Inhabited
@@ -146,15 +151,139 @@ def rewriteFn (f : Fn) : Option LoopFn :=
   match tryRw f.params.length f.body erc 0 with
   | none => none
   | some (stmts, args, n) =>
-    -- fix c57720b: snapshot when an argument is a parameter of another position
-    let (stmts, args) :=
-      if readsOther f.params args then
-        let cnt := min args.length f.params.length
-        let temps := mkTemps n cnt
-        (stmts.append (castChain (temps.zip args)), temps.map Expr.var ++ args.drop cnt)
-      else (stmts, args)
-    some { params := f.params.map trp,
-           vars := (f.params.zip args).map fun pa => (pa.1, .var (trp pa.1), pa.2),
-           body := stmts, breakCollector := erc, ret := f.ret }
+    some { params := f.params, body := stmts, args := args, snapshot := readsOther f.params args,
+           nextTemp := n, breakCollector := erc, ret := f.ret }
+
+/-- The statements of the emitted `While` (with the snapshot `Cast`s) and its loop values. -/
+def LoopFn.emitted (lf : LoopFn) : Blk × List Expr :=
+  if lf.snapshot then
+    let cnt := min lf.args.length lf.params.length
+    let temps := mkTemps lf.nextTemp cnt
+    (lf.body.append (castChain (temps.zip lf.args)), temps.map Expr.var ++ lf.args.drop cnt)
+  else (lf.body, lf.args)
+
+/-! ## Semantics -/
+
+inductive Flow where
+  | next (env : Env)
+  | broke (v : Int)
+
+/-- Final assignments of an `IfElse`: every value is read in the environment at the end of the taken
+branch, then the names are written (the names are fresh single-assignment names). -/
+def applyFinals (env : Env) (b : Bool) (fs : List Final) : Env :=
+  fs.foldl (fun e f => upd e f.1 ((if b then f.2.1 else f.2.2).eval env)) env
+
+/-- One statement list. `callee` = the function itself on the argument values (one level less fuel).
+`none` = trap, or the callee did not return. -/
+def execBlk (ev : Op → Int → Int → Option Int) (callee : List Int → Option Int) : Env → Blk → Option Flow
+  | env, .done => some (.next env)
+  | env, .bin x op e1 e2 k =>
+    match ev op (e1.eval env) (e2.eval env) with
+    | none => none
+    | some v => execBlk ev callee (upd env x v) k
+  | env, .cast x e k => execBlk ev callee (upd env x (e.eval env)) k
+  | env, .call args rc k =>
+    match callee (args.map (Expr.eval env)) with
+    | none => none
+    | some r => execBlk ev callee (match rc with | some x => upd env x r | none => env) k
+  | env, .ifElse c s1 s2 fs k =>
+    if c.eval env ≠ 0 then
+      match execBlk ev callee env s1 with
+      | none => none
+      | some (.broke v) => some (.broke v)
+      | some (.next e1) => execBlk ev callee (applyFinals e1 true fs) k
+    else
+      match execBlk ev callee env s2 with
+      | none => none
+      | some (.broke v) => some (.broke v)
+      | some (.next e1) => execBlk ev callee (applyFinals e1 false fs) k
+  | env, .sif c inv body k =>
+    if (decide (c.eval env ≠ 0) != inv) = true then
+      match execBlk ev callee env body with
+      | none => none
+      | some (.broke v) => some (.broke v)
+      | some (.next e1) => execBlk ev callee e1 k
+    else execBlk ev callee env k
+  | env, .brk e => some (.broke (e.eval env))
+
+/-- The recursive function; `fuel` bounds the call depth. -/
+def runRec (ev : Op → Int → Int → Option Int) (f : Fn) : Nat → List Int → Option Int
+  | 0, _ => none
+  | fuel + 1, vals =>
+    match execBlk ev (runRec ev f fuel) (bindParams f.params vals) f.body with
+    | some (.next env) => some (f.ret.eval env)
+    | _ => none
+
+/-- The rewritten function as the backends run it: each iteration starts from the loop variables'
+values (locals are single-assignment); the loop values are assigned one after the other
+(`wasm_lowering.rs:437-441`), or — with the snapshot of fix c57720b, whose temporaries are fresh —
+all read before any loop variable is written. A `Break` value is what the function returns when
+its returned expression is the break collector; a literal is returned as such. -/
+def runLoop (ev : Op → Int → Int → Option Int) (lf : LoopFn) : Nat → List Int → Option Int
+  | 0, _ => none
+  | fuel + 1, vals =>
+    match execBlk ev (runLoop ev lf fuel) (bindParams lf.params vals) lf.body with
+    | none => none
+    | some (.broke v) => some (match lf.ret with | .var _ => v | .lit m => m)
+    | some (.next env) =>
+      if lf.snapshot then runLoop ev lf fuel (lf.args.map (Expr.eval env))
+      else runLoop ev lf fuel (lf.params.map (seqAssign env (lf.params.zip lf.args)))
+
+/-! ## The shape of front-end output the theorem assumes -/
+
+/-- Only statements of un-rewritten code (no `SingleIf` / `Break`). -/
+def plain : Blk → Bool
+  | .done => true
+  | .bin _ _ _ _ k => plain k
+  | .cast _ _ k => plain k
+  | .call _ _ k => plain k
+  | .ifElse _ s1 s2 _ k => plain s1 && plain s2 && plain k
+  | .sif _ _ _ _ => false
+  | .brk _ => false
+
+/-- The list does not end (through the branches of a final `IfElse`) in a self call that drops its
+result. -/
+def noBareTail : Blk → Bool
+  | .done => true
+  | .brk _ => true
+  | .bin _ _ _ _ k => k.isDone || noBareTail k
+  | .cast _ _ k => k.isDone || noBareTail k
+  | .sif _ _ _ k => k.isDone || noBareTail k
+  | .call _ rc k => if k.isDone then rc.isSome else noBareTail k
+  | .ifElse _ s1 s2 _ k => if k.isDone then noBareTail s1 && noBareTail s2 else noBareTail k
+
+def exprVar : Expr → List Name
+  | .var x => [x]
+  | .lit _ => []
+
+/-- Shape condition for a list rewritten with expected collector `erc`:
+* a final self call has one argument per parameter and its collector is not among its arguments;
+* the final assignments of a final `IfElse` have distinct names; when a value is expected
+  (`erc = some _`) and the relevant final assignment carries a *literal* for a branch, that branch
+  does not end in a result-dropping self call (HIR lowering never produces that: a self call whose
+  value is the branch's value has a collector). -/
+def good (np : Nat) : Blk → Option Name → Bool
+  | .done, _ => true
+  | .brk _, _ => true
+  | .bin _ _ _ _ k, erc => good np k erc
+  | .cast _ _ k, erc => good np k erc
+  | .sif _ _ _ k, erc => good np k erc
+  | .call args rc k, erc =>
+    if k.isDone then args.length == np && (match rc with
+      | some r => !(args.flatMap exprVar).contains r
+      | none => true)
+    else good np k erc
+  | .ifElse _ s1 s2 fs k, erc =>
+    if k.isDone then
+      (fs.map (·.1)).Nodup &&
+      (match erc with
+       | some _ =>
+         match fs.find? fun f => erc == some f.1 with
+         | some f =>
+           good np s1 (asVar f.2.1) && good np s2 (asVar f.2.2) &&
+           ((asVar f.2.1).isSome || noBareTail s1) && ((asVar f.2.2).isSome || noBareTail s2)
+         | none => true
+       | none => good np s1 none && good np s2 none)
+    else good np k erc
 
 end SamVerif.TailStmt
